@@ -1008,6 +1008,7 @@ Definition wf_firing (c : command_class) (f : outcome_facts) : bool :=
   | CPullFF => negb (f_exit_ok f) || (is_some (f_head f) && is_some (f_head_after f))
   | CPullRebase =>
       negb (f_in_progress f) && negb (f_in_progress_after f) && forallb inert_noise (f_noise f) && nz (f_upstream f)
+      && (match f_picks f with [] => (match f_noise f with [] => true | _ => false end) | _ => true end)
       && (negb (f_exit_ok f) ||
           (is_some (f_head f) && is_some (f_head_after f) && is_some (f_upstream f)
            && (negb (f_uptodate f) || (opt_eqb (f_head_after f) (f_head f) && match f_picks f with [] => true | _ => false end))
